@@ -42,7 +42,7 @@ def run(chk):
         chk.count("delegated" if delegated else "flat")
         desc = {"consistent_snapshot": cs, "delegated": delegated, "added": [a["name"] for a in add],
                 "results": o.get("results") if isinstance(o, dict) else o}
-        if not isinstance(o, dict) or any(r[0] != 0 for r in o["results"]):
+        if not isinstance(o, dict) or any(r[0] != 0 for r in o["results"][:-1]):
             chk.broken("update program failed: %s" % (json.dumps(desc["results"])[:300]), dict(desc, case=c))
             continue
         old, new = edprog.parse_files(o["initial_files"]), edprog.parse_files(o["final_files"])
